@@ -356,11 +356,12 @@ WTarget(fs, op, Q, L, f, n) ==
         (* an undefined weak reference with default visibility in a dynamically linked output is left as
            a DYNAMIC weak reference to its own name: the run-time linker binds it to a linked shared
            object that defines that name, if there is one *)
-        dynProviders == {g \in L : Shared(fs, g) /\ IsDefKind(D(fs, g, n))}
+        dname == IF "wrapNoDef" \in Q THEN n ELSE WrapRule(op, fs, f, n)   \* (as coded the reference keeps its own name)
+        dynProviders == {g \in L : Shared(fs, g) /\ IsDefKind(D(fs, g, dname))}
     IN IF s = NoSym \/ dropped \/ fin.f \notin L
        THEN (IF weak
              THEN (IF V(fs, f, n) = "default" /\ dynProviders # {}
-                   THEN [t |-> "dyn", f |-> MinOf(dynProviders), n |-> n]
+                   THEN [t |-> "dyn", f |-> MinOf(dynProviders), n |-> dname]
                    ELSE [t |-> "zero", f |-> 0, n |-> ""])
              ELSE NoTarget)
        ELSE IF Shared(fs, fin.f) THEN [t |-> "dyn", f |-> fin.f, n |-> fin.n]
